@@ -155,7 +155,8 @@ def explore_scenario(job):
 POS_RE = re.compile(r'<<"POS", (\d+), (\d+)>>')
 
 
-def judge(traces, workdir, name):
+def _judge_chunk(args):
+  traces, workdir, name = args
   path = os.path.join(workdir, name + '.lin.json')
   with open(path, 'w') as f:
     json.dump(traces, f)
@@ -163,11 +164,31 @@ def judge(traces, workdir, name):
             'Recycle': CONF['Recycle']}
   cfg = os.path.join(workdir, name + '.lin.cfg')
   tlc.write_cfg(cfg, constants=consts, constraints=['Pos'])
-  res = tlc.must_ok(tlc.run_tlc('VizierLin', cfg, workdir, workers=16, env={'TRACE_FILE': path}, timeout=3000), 'VizierLin/' + name)
+  res = tlc.must_ok(tlc.run_tlc('VizierLin', cfg, workdir, workers=4, env={'TRACE_FILE': path}, timeout=3000), 'VizierLin/' + name)
   mx = collections.defaultdict(int)
   for m in POS_RE.finditer(res.out):
     mx[int(m.group(1))] = max(mx[int(m.group(1))], int(m.group(2)))
-  return [mx[i + 1] == len(t) + 1 for i, t in enumerate(traces)], [mx[i + 1] for i in range(len(traces))], res
+  os.unlink(path)
+  return [mx[i + 1] == len(t) + 1 for i, t in enumerate(traces)], [mx[i + 1] for i in range(len(traces))], res.distinct, res.generated
+
+
+class _Res:
+  pass
+
+
+def judge(traces, workdir, name, chunk=4000):
+  """Validates the traces with VizierLin.tla, a few thousand per TLC run, four runs at a time."""
+  jobs = [(traces[k:k + chunk], workdir, '%s_%d' % (name, k // chunk)) for k in range(0, len(traces), chunk)]
+  accepted, reach = [], []
+  tot = _Res()
+  tot.distinct = tot.generated = 0
+  with cf.ThreadPoolExecutor(max_workers=4) as ex:
+    for a, r, d, g in ex.map(_judge_chunk, jobs):
+      accepted += a
+      reach += r
+      tot.distinct += d
+      tot.generated += g
+  return accepted, reach, tot
 
 
 def symptom(events, calls, deadlock):
